@@ -395,6 +395,22 @@ def run(mon, spec):
                             ("fpole", start, final, lon1, lat1))
                 except Exception:
                     pass
+            r2 = rng.random()
+            if r2 < 0.08:
+                # a star on (or a hair from) the equator of the starting
+                # epoch: the way back of "there and back" ends there, and so
+                # does a zero interval
+                lat1 = rng.choice((0.0, 0.0, 1e-9, -1e-9, 1e-5, -3e-4))
+            elif r2 < 0.16 and start != final:
+                # a star that ends on the equator of the final epoch
+                try:
+                    pa, pb = pe(final, start, rng.uniform(0, 360),
+                                rng.choice((0.0, 1e-9, -1e-6, 2e-4)))
+                    lon1, lat1 = pa % 360.0, pb
+                    mon.cls("lands-on-the-equator-of-the-final-epoch",
+                            ("feq", start, final, lon1, lat1))
+                except Exception:
+                    pass
             if rng.random() < 0.4:
                 lon2 = lon1 + rng.uniform(-3, 3)
                 lat2 = max(-90.0, min(90.0, lat1 + rng.uniform(-3, 3)))
